@@ -30,6 +30,12 @@ CHECKS = {
   text='The context\'s rng is a scripted generator object (a random.Random subclass and a numpy-Generator-like stub, alternating) that returns each k-bit value in turn and records every request. For each operand at every multiple of 2^-(k+2) of several gaps (gap above zero / subnormal, a middle gap, the last gap below the largest value, the overflow gap) in both signs, all 2^k draws are executed: each result must be one of the two neighbours given by the independent oracle, a representable operand must come back unchanged, the same bits must give the same result, the number of draws leaving the lower neighbour must equal the offset in units of 2^-k rounded by the context\'s mode, and exactly one request of width k must reach the generator. k in 1..3 (quick) / 1..5 (thorough) and None, 8 base modes, families MPFloat, MPSFloat, MPBFloat, IEEE, EFloat, MPFixed, MPBFixed, Fixed, SMFixed.',
   ref='DESIGN.md 2/C17',
   note='Trusted: neighbours from vf/oracle/rnd.py on the deterministic twin context. In the gap above the largest value only membership and determinism are judged (where "up" goes is the overflow policy). With num_randbits=None the width is learnt from the request itself and must cover all operand bits.'),
+ 'C02': dict(
+  technique='runtime post-condition monitor on fpy2.ops.* (and the interpreter operator tables) vs exact Fraction results rounded once by the independent oracle; wide-source / narrow-target operand sweep',
+  category='exploration',
+  text='Every call of fpy2.ops add, sub, mul, div, fma, sqrt, cbrt, hypot, fmod, remainder, mod, pow (integer exponent), ceil, floor, trunc, roundint, nearbyint, neg, fabs, copysign, fdim is observed by a post-condition: the exact result is computed on the operands\' denotations with Fractions (roots by integer power comparison, special cases from the IEEE 754 tables), rounded once by the independent rounding oracle, and compared with the returned value, sign of zero and inexact/overflow/invalid/divzero flags; under REAL the exact value itself is required. Operands come from a source format wider than the narrow target contexts (all pairs in thorough, sampled pairs in quick; fma triples sampled plus cancellation-heavy triples), so exact results sit within one sticky bit of target breakpoints. Thorough also runs the C01 round monitor on every intermediate rounding.',
+  ref='DESIGN.md 1.1, 1.4, 2/C02',
+  note='Trusted: Fraction arithmetic, vf/oracle/arith.py tables, vf/oracle/rnd.py. Open by the property or by lack of a specification: sign of an exact-cancellation zero under RTN, sign of a zero result of Python-style mod, sign of NaN. NotImplementedError accepted for non-dyadic operands and under REAL.'),
 }
 
 NOT_YET = {}
